@@ -59,6 +59,38 @@ func runC06(c *core.Ctx) {
 		}
 	}
 	o := &c06Oracle{c: c, d: d, idKey: map[string]map[uint64]string{"A": {}, "B": {}}}
+	if c.T.Bias(1, 4, "restart-before-start") {
+		// candidates gathered and trickled before Dial/Accept, then Restart while the state is still New:
+		// nothing of that generation may survive
+		for _, cand := range d.A.LocalCands() {
+			_ = d.Signal(d.A, d.B, cand)
+		}
+		for _, cand := range d.B.LocalCands() {
+			_ = d.Signal(d.B, d.A, cand)
+		}
+		o.invariants()
+		for _, ag := range []*rig.AgentH{d.A, d.B} {
+			uf, pw := rig.Creds(ag.Name, 9)
+			if err := ag.A.Restart(uf, pw); err != nil {
+				c.Failf("harness/restart", "%v", err)
+				return
+			}
+			ag.Ufrag, ag.Pwd = uf, pw
+			d.S.Settle()
+			s := rig.TakeSnap(ag)
+			if len(s.Pairs) != 0 || len(s.Locals) != 0 || len(s.Remotes) != 0 || s.Selected != "" {
+				c.Failf("C06/restart-residue", "%s after Restart in state New: %d pairs, %d local, %d remote candidates, selected=%q", ag.Name, len(s.Pairs), len(s.Locals), len(s.Remotes), s.Selected)
+				return
+			}
+			c.Probe("restart-before-start-clean")
+		}
+		for _, ag := range []*rig.AgentH{d.A, d.B} {
+			if err := d.Gather(ag); err != nil {
+				c.Failf("harness/gather", "%v", err)
+				return
+			}
+		}
+	}
 	d.AroundSignal = o.aroundSignal
 	sess := &c01Session{c: c, d: d, k: k, noOracles: true}
 	sess.hook = func(string) {
